@@ -6,10 +6,9 @@ CONSTANTS
   Toks <- TokQ
   MaxParts = 3
   Methods = {"GET", "POST"}
-  Binds = {1, 5}
+  Binds = {1}
   WsKinds = {FALSE, TRUE}
   ExportEvery = 1
 INIT Init
 NEXT Next
 INVARIANT ImplInExpectedX
-INVARIANT AdapterOpsInContract
